@@ -98,6 +98,18 @@ class Check:
         if rec.get("mismatch"):
             if len(self.engine_errors) < 10:
                 self.engine_errors.append({"translator-validation-mismatch": rec["mismatch"], "w": rec.get("w")})
+        lf = rec.get("lift")
+        if lf:
+            L = self.extra.setdefault("span_lifting", {"span_terms": 0, "discharged_syntactically": 0, "z3_queries": 0, "paths": 0})
+            L["span_terms"] += lf[0]
+            L["discharged_syntactically"] += lf[1]
+            L["z3_queries"] += lf[2]
+            L["paths"] += 1
+        sa = rec.get("symassert")
+        if sa:
+            S = self.extra.setdefault("symbolic_assertions", {"proved": 0, "paths": 0})
+            S["proved"] += sa
+            S["paths"] += 1
         for c in rec.get("viol", ()):
             self.add_candidate(c)
         for q in rec.get("inconclusive", ()):
